@@ -3,6 +3,7 @@ package props
 import (
 	"encoding/json"
 	"fmt"
+	"os"
 	"sort"
 	"strings"
 	"time"
@@ -134,6 +135,8 @@ func runC18(r *core.Run) {
 		"SELECT ROW_NUMBER() OVER (ORDER BY c1) AS n, NTILE(2) OVER (ORDER BY c1), FIRST_VALUE(c2) OVER (PARTITION BY c1) FROM tbl", "SELECT c1 FROM tbl FOR UPDATE",
 		"SELECT c1, c2 FROM tbl WHERE (c1, c2) = (1, 'a') OR (c1, c2) IN ((2, 'bb'), (3, NULL))", "SELECT DATETIME('2012-02-03') < NOW(), TRUE IS UNKNOWN, NULL IS NOT FALSE",
 		"SELECT JSON_OBJECT(c1, c2) FROM tbl", "SELECT SUBSTRING(c2 FROM 1 FOR 2), TRIM(' x '), c1 BETWEEN 1 AND 2 AND c2 IS NULL FROM tbl",
+		"SELECT 1 AS `a\"`, 2 AS `x\"\"y`, 3 AS `\"q\"`, 4 AS `\"`", "SELECT s.`c\"1` + 1, `d\"\"` FROM (SELECT c1 AS `c\"1`, c2 AS `d\"\"` FROM tbl) s", "SELECT 'x' AS `it''s`, 'y' AS `a\\\"b`",
+		"SELECT ! !TRUE, !(!FALSE), ! ! !TRUE AS r, NOT !TRUE", "SELECT !(c1 > 1), ! (!(c1 > 1)) FROM tbl",
 		"INSERT INTO tbl (c1, c2) VALUES (9, 'z'), (10, NULL)", "UPDATE tbl SET c2 = c2 || 'x' WHERE c1 IN (SELECT c1 FROM tbl)", "DELETE FROM tbl WHERE c1 > 100",
 		"REPLACE INTO tbl (c1, c2) USING (c1) VALUES (1, 'q')", "ALTER TABLE tbl ADD (c3 DEFAULT c1 * 2) AFTER c1", "CREATE TABLE `new.csv` (a, b)",
 	)
@@ -195,8 +198,50 @@ func runC18(r *core.Run) {
 		nmut = 100000
 	}
 	rng := r.Rand
+	// the texts mutants are made from: the above plus statements of the procedural language and external commands (these are
+	// not printed back, only parsed)
+	bases := append(append([]string{}, texts...),
+		"$echo \"abc\" 'd e' ${@a + 1} `x y` plain;", "$ls -l ${'a' || 'b'} \"${@v}\";", "SELECT 1;\n$echo ${@a + 1};", "$ echo 'it''s' \"q\\\"r\" ${ @a };",
+		"VAR @a := 1, @b; IF @a = 1 THEN PRINT 'x'; ELSEIF @a = 2 THEN PRINT 'y'; ELSE PRINT 'z'; END IF;", "WHILE @a < 3 DO @a := @a + 1; CONTINUE; BREAK; END WHILE;",
+		"DECLARE c CURSOR FOR SELECT c1 FROM tbl; OPEN c; FETCH RELATIVE -1 c INTO @a; WHILE VAR @x IN c DO PRINT @x; END WHILE; CLOSE c; DISPOSE CURSOR c;",
+		"CASE @a WHEN 1 THEN PRINT 1; WHEN 2 THEN PRINT 2; ELSE EXIT 3; END CASE;", "PREPARE ps FROM 'SELECT ?, :name'; EXECUTE ps USING 1, 'x' AS name; DISPOSE PREPARE ps;",
+		"SET @@DATETIME_FORMAT TO '[\"%Y\"]'; SHOW @@CPU; SHOW TABLES; SHOW FIELDS FROM tbl; ADD '%d' TO @@DATETIME_FORMAT; REMOVE 1 FROM @@DATETIME_FORMAT;",
+		"SOURCE `x.sql`; TRIGGER ERROR 300 'msg'; ECHO @a; PRINTF '%s %d' USING 'a', 1; CHDIR 'sub'; PWD; RELOAD CONFIG; SYNTAX select;",
+		"DECLARE f FUNCTION (@a, @b DEFAULT 2) AS BEGIN RETURN @a + @b; END; DECLARE g AGGREGATE (c, @p) AS BEGIN RETURN 1; END; DISPOSE FUNCTION f;",
+		"DECLARE v VIEW (a, b) AS SELECT 1, 2; DISPOSE VIEW v; COMMIT; ROLLBACK; SELECT * FROM CSV(',', `t.csv`, 'UTF8', NO_HEADER) t JOIN JSON('{}', `j.json`) j ON TRUE;",
+		"SELECT * FROM tbl WHERE c1 = ? AND c2 = :x; SELECT @a := @a + 1, @@CPU, @%HOME, @#VERSION; SELECT https://example.com/a.csv;")
+	// the parser terminates: every call is given a deadline (a call that does not return cannot be stopped from outside -
+	// the run records it and ends at once)
+	parseDeadline := func(s string, fe, aq bool) (stmts int, err error, panicked bool, hung bool) {
+		type out struct {
+			n   int
+			err error
+			pan bool
+		}
+		ch := make(chan out, 1)
+		go func() {
+			var o out
+			defer func() {
+				if x := recover(); x != nil {
+					o.pan = true
+				}
+				ch <- o
+			}()
+			st, _, e := parser.Parse(s, "", fe, aq)
+			o.n, o.err = len(st), e
+		}()
+		select {
+		case o := <-ch:
+			return o.n, o.err, o.pan, false
+		case <-time.After(1500 * time.Millisecond):
+			return 0, nil, false, true
+		}
+	}
 	for i := 0; i < nmut; i++ {
-		t := texts[rng.Intn(len(texts))]
+		t := bases[rng.Intn(len(bases))]
+		if i%4 == 0 {
+			t = bases[len(texts)+rng.Intn(len(bases)-len(texts))]
+		}
 		b := []byte(t)
 		switch rng.Intn(6) {
 		case 0:
@@ -223,21 +268,24 @@ func runC18(r *core.Run) {
 		}
 		s := string(b)
 		ev := map[string]interface{}{"kind": "mutant", "ok": false, "panicked": false, "line": 0, "col": 0, "lines": len(splitLines(s)), "maxcol": maxLineLen(s)}
-		func() {
-			defer func() {
-				if x := recover(); x != nil {
-					ev["panicked"] = true
-				}
-			}()
-			_, _, err := parser.Parse(s, "", rng.Intn(2) == 0, rng.Intn(2) == 0)
-			if err == nil {
+		{
+			fe, aq := rng.Intn(2) == 0, rng.Intn(2) == 0
+			_, err, pan, hung := parseDeadline(s, fe, aq)
+			if hung {
+				r.Violation("parse:does-not-terminate", fmt.Sprintf("the parser does not return on %q (for-prepared %v, ansi-quotes %v) within 1.5 s", s, fe, aq), map[string]interface{}{"text": s})
+				fmt.Println("NOTE property=C18 the run ends here: a parser call that does not return keeps allocating")
+				os.Exit(r.Finish())
+			}
+			if pan {
+				ev["panicked"] = true
+			} else if err == nil {
 				ev["ok"] = true
 			} else if se, ok := err.(*parser.SyntaxError); ok {
 				ev["line"], ev["col"] = se.Line, se.Char
 			} else {
 				ev["panicked"] = true
 			}
-		}()
+		}
 		lines = append(lines, core.JSON(ev))
 		descr = append(descr, fmt.Sprintf("parser on %q: %v", s, ev))
 		sig := "parse:position-outside-input"
